@@ -712,8 +712,19 @@ def rule_removal_helpers(ctx, R):
         d_old = descr[oldk]
         d_new = descr.get(newk)
         if d_new is not None:
-            is_c = d_new == compl(d_old)
-            is_s = d_new == d_old
+            # the placeholder a path creates may have an unspecified overlap:
+            # the real link that replaces it is the same / the complement up
+            # to that overlap (same test as Path._initialize_links uses when
+            # the link comes first)
+            def ovc(a, b):
+                return a[0] == "*" or b[0] == "*" or a == b
+            c_old = compl(d_old)
+            is_c = d_new[:4] == c_old[:4] and (
+                d_new[4] == c_old[4] or
+                (d_old[4][0] == "*" and ovc(d_new[4], c_old[4])))
+            is_s = d_new[:4] == d_old[:4] and (
+                d_new[4] == d_old[4] or
+                (d_old[4][0] == "*" and ovc(d_new[4], d_old[4])))
             if is_c and is_s:
                 continue        # self-complementary: direction is ambiguous
             if not (is_c or is_s):
@@ -778,3 +789,102 @@ def rule_removal_helpers(ctx, R):
                           "an entry flips exactly when the new link is the "
                           "complement of the old one)" % (got, want))
     ctx.exhaustive[R] = True
+
+
+# --------------------------------------------------------------------------
+def rule_identity_membership(ctx, R):
+    """Lines are compared by content (Equivalence.__eq__): two distinct lines
+    with the same text are equal.  Wherever the reference graph is built or
+    taken apart, membership of a *line* in a *collection of lines* must
+    therefore not be tested with `in` / `not in` (the tree's own idiom is
+    `x is line` or `id(x) in seen`)."""
+    import ast
+    from ..model import unparse, walk_no_nested, record_classes, record_table
+    ctx.rule(R, "in the functions that build or take apart the reference "
+             "graph (connection, disconnection, update/virtual-to-real "
+             "helpers, every `references` mixin, the destructors) no "
+             "`in` / `not in` test has a line on the left (self, or the "
+             "variable of a loop over a reference collection) and a "
+             "collection of lines on the right (a reference getter, "
+             "`_refs[...]`, `getattr(x, key)`, or a local list filled with "
+             "such lines): Line.__eq__ compares content, so parallel edges "
+             "or duplicate lines would be conflated", floor=3)
+    repo = ctx.repo
+    refkeys = set()
+    for c in record_classes(repo):
+        t = record_table(repo, c)
+        refkeys.update(t.refkeys)
+
+    def in_scope(f):
+        m = f.module.name
+        return m.endswith(".references") or m in (
+            "gfapy.line.common.connection", "gfapy.line.common.disconnection",
+            "gfapy.line.common.update_references",
+            "gfapy.line.common.virtual_to_real", "gfapy.lines.destructors")
+
+    def is_refcoll(e, accum):
+        if isinstance(e, ast.Call) and isinstance(e.func, ast.Name) and \
+                e.func.id in ("list", "reversed", "tuple", "sorted") and \
+                e.args:
+            return is_refcoll(e.args[0], accum)
+        if isinstance(e, ast.Attribute) and e.attr in refkeys:
+            return True
+        if isinstance(e, ast.Subscript) and \
+                isinstance(e.value, ast.Attribute) and e.value.attr == "_refs":
+            return True
+        if isinstance(e, ast.Call) and isinstance(e.func, ast.Attribute) and \
+                e.func.attr == "get" and \
+                isinstance(e.func.value, ast.Attribute) and \
+                e.func.value.attr == "_refs":
+            return True
+        if isinstance(e, ast.Call) and isinstance(e.func, ast.Name) and \
+                e.func.id == "getattr" and len(e.args) >= 2:
+            return True
+        if isinstance(e, ast.Name) and e.id in accum:
+            return True
+        return False
+
+    n_funcs = 0
+    for f in sorted(repo.functions.values(), key=lambda f: f.qualname):
+        if not in_scope(f):
+            continue
+        n_funcs += 1
+        # loop variables over reference collections, and accumulators
+        linevars = set()
+        if f.self_name:
+            linevars.add(f.self_name)
+        accum = set()
+        for _ in range(3):
+            for n in walk_no_nested(f.node):
+                if isinstance(n, (ast.For, ast.comprehension)) and \
+                        is_refcoll(n.iter, accum):
+                    for t in ast.walk(n.target):
+                        if isinstance(t, ast.Name):
+                            linevars.add(t.id)
+                if isinstance(n, ast.Call) and \
+                        isinstance(n.func, ast.Attribute) and \
+                        n.func.attr in ("append", "add", "insert") and \
+                        isinstance(n.func.value, ast.Name) and n.args and \
+                        isinstance(n.args[-1], ast.Name) and \
+                        n.args[-1].id in linevars:
+                    accum.add(n.func.value.id)
+                if isinstance(n, ast.Assign) and len(n.targets) == 1 and \
+                        isinstance(n.targets[0], ast.Name) and \
+                        is_refcoll(n.value, accum):
+                    accum.add(n.targets[0].id)
+        for n in walk_no_nested(f.node):
+            if isinstance(n, ast.Compare) and len(n.ops) == 1 and \
+                    isinstance(n.ops[0], (ast.In, ast.NotIn)):
+                ctx.instance(R)
+                left, right = n.left, n.comparators[0]
+                bad = isinstance(left, ast.Name) and left.id in linevars and \
+                    is_refcoll(right, accum)
+                ctx.oblige(not bad)
+                if bad:
+                    ctx.violation(
+                        R, f.short, unparse(n)[:70],
+                        "tests whether a line is in a collection of lines "
+                        "with `in`, i.e. by content: a distinct line with "
+                        "the same text (a parallel edge, a duplicate C/F "
+                        "line, a second `*`-named edge) counts as present")
+    ctx.notes["identity_membership_functions"] = n_funcs
